@@ -1,7 +1,7 @@
 import DdsModel.EncTotal
 import DdsModel.Drv.C02
-namespace Dds.Drv
-open Dds Dds.EncTotal
+namespace Dds.Drv.C15
+open Dds Dds.Drv Dds.EncTotal
 
 /-- the special values of the `Q` cases -/
 def specialOf : String → Option ExtReal
@@ -101,4 +101,8 @@ def runC15 (line : String) : String :=
     | _, _, _, _ => "bad-case"
   | _ => "bad-case"
 
+end Dds.Drv.C15
+
+namespace Dds.Drv
+def runC15 : String → String := C15.runC15
 end Dds.Drv
